@@ -348,7 +348,8 @@ impl<'tcx> Cx<'tcx> {
             E::Index(a, b, _) => obj("index", vec![("e", self.expr(a)), ("i", self.expr(b)), ("base_ty", self.ty_str(a))]),
             E::Assign(a, b, _) => obj("assign", vec![("l", self.expr(a)), ("r", self.expr(b))]),
             E::AssignOp(op, a, b) => obj("assignop", vec![("op", s(format!("{:?}", op.node))), ("l", self.expr(a)), ("r", self.expr(b))]),
-            E::Block(b, _) => return self.block(b),
+            E::Block(b, None) => return self.block(b),
+            E::Block(b, Some(_)) => obj("lblock", vec![("hid", J::Num(b.hir_id.local_id.as_u32() as i128)), ("body", self.block(b))]),
             E::If(c, t, el) => {
                 let mut v = obj("if", vec![("cond", self.expr(c)), ("then", self.expr(t))]);
                 if let Some(x) = el {
@@ -358,8 +359,14 @@ impl<'tcx> Cx<'tcx> {
             }
             E::Let(l) => obj("letcond", vec![("pat", self.pat(l.pat)), ("init", self.expr(l.init))]),
             E::Ret(x) => obj("return", vec![("e", x.map(|x| self.expr(x)).unwrap_or(J::Null))]),
-            E::Break(_, x) => obj("break", vec![("e", x.map(|x| self.expr(x)).unwrap_or(J::Null))]),
-            E::Continue(_) => obj("continue", vec![]),
+            E::Break(dest, x) => obj(
+                "break",
+                vec![
+                    ("e", x.map(|x| self.expr(x)).unwrap_or(J::Null)),
+                    ("target", dest.target_id.ok().map(|h| J::Num(h.local_id.as_u32() as i128)).unwrap_or(J::Null)),
+                ],
+            ),
+            E::Continue(dest) => obj("continue", vec![("target", dest.target_id.ok().map(|h| J::Num(h.local_id.as_u32() as i128)).unwrap_or(J::Null))]),
             E::Become(x) => obj("become", vec![("e", self.expr(x))]),
             E::Yield(x, _) => obj("yield", vec![("e", self.expr(x))]),
             E::Closure(c) => {
@@ -415,7 +422,7 @@ impl<'tcx> Cx<'tcx> {
                 v.push(("ty", self.ty_str(e)));
                 v
             }
-            E::Loop(b, _, src, _) => obj("loop", vec![("src", s(format!("{:?}", src))), ("body", self.block(b))]),
+            E::Loop(b, _, src, _) => obj("loop", vec![("src", s(format!("{:?}", src))), ("hid", J::Num(e.hir_id.local_id.as_u32() as i128)), ("body", self.block(b))]),
             E::Match(scrut, arms, src) => match src {
                 hir::MatchSource::AwaitDesugar => {
                     // match IntoFuture::into_future(inner) { mut pinned => loop {..} }
@@ -437,8 +444,10 @@ impl<'tcx> Cx<'tcx> {
                     let iter = self.is_call_to(scrut, "IntoIterator::into_iter").and_then(|a| a.first());
                     let mut pat = J::Null;
                     let mut body = J::Null;
+                    let mut loop_hid = J::Null;
                     if let Some(arm) = arms.first() {
                         if let E::Loop(lb, ..) = arm.body.kind {
+                            loop_hid = J::Num(arm.body.hir_id.local_id.as_u32() as i128);
                             let inner = lb.expr.or_else(|| {
                                 lb.stmts.first().and_then(|st| match st.kind {
                                     hir::StmtKind::Expr(x) | hir::StmtKind::Semi(x) => Some(x),
@@ -472,7 +481,7 @@ impl<'tcx> Cx<'tcx> {
                         let arms_j: Vec<J> = arms.iter().map(|a| J::Obj(vec![("pat", self.pat(a.pat)), ("body", self.expr(a.body))])).collect();
                         obj("for_raw", vec![("scrut", self.expr(scrut)), ("arms", J::Arr(arms_j))])
                     } else {
-                    obj("for", vec![("pat", pat), ("iter", iter.map(|x| self.expr(x)).unwrap_or(J::Null)), ("body", body)])
+                    obj("for", vec![("pat", pat), ("iter", iter.map(|x| self.expr(x)).unwrap_or(J::Null)), ("hid", loop_hid), ("body", body)])
                     }
                 }
                 _ => {
